@@ -259,23 +259,42 @@ theorem splitPipes_nil (cur : Str) : splitPipes [] cur = [cur.reverse] := by
   simp [splitPipes]
 
 theorem splitPipes_esc (r cur : Str) : splitPipes (92 :: 124 :: r) cur = splitPipes r (124 :: cur) := by
-  rw [splitPipes]; simp
+  rw [splitPipes]
 
 theorem splitPipes_pipe (r cur : Str) : splitPipes (124 :: r) cur = cur.reverse :: splitPipes r [] := by
-  cases r <;> simp [splitPipes]
+  rw [splitPipes.eq_3 _ _ _ (fun _ h _ => by omega)]; simp
 
 theorem splitPipes_other (c : Nat) (r cur : Str) (h1 : c ≠ 92) (h2 : c ≠ 124) :
     splitPipes (c :: r) cur = splitPipes r (c :: cur) := by
-  cases r <;> simp [splitPipes, h1, h2]
+  rw [splitPipes.eq_3 _ _ _ (fun _ h _ => h1 h)]; simp [h2]
 
-/-- scanning an escaped backslash-free text adds exactly that text to the current cell -/
-theorem splitPipes_escPipe_append (s t : Str) (h : 92 ∉ s) (cur : Str) :
-    splitPipes (escPipe s ++ t) cur = splitPipes t (s.reverse ++ cur) := by
+/-- a backslash that is not followed by a pipe is cell text -/
+theorem splitPipes_bs (r cur : Str) (h : ∀ r', r ≠ 124 :: r') :
+    splitPipes (92 :: r) cur = splitPipes r (92 :: cur) := by
+  rw [splitPipes.eq_3 _ _ _ (fun r' _ h2 => h r' h2)]; simp
+
+/-- escaped text never starts with a bare pipe -/
+theorem escPipe_append_head (s t : Str) (hs : s ≠ []) : ∀ r', escPipe s ++ t ≠ 124 :: r' := by
+  cases s with
+  | nil => exact absurd rfl hs
+  | cons d s' =>
+    intro r' h
+    by_cases hd : d = 124
+    · subst hd; rw [escPipe_cons_pipe] at h; simp at h
+    · rw [escPipe_cons_ne _ _ hd] at h; simp at h; exact hd h.1
+
+/-- scanning an escaped text — ANY bytes, backslashes included — adds exactly that text to the
+current cell, provided a backslash at its very end is not followed by a pipe of the row -/
+theorem splitPipes_escPipe_append_any (s t : Str) (h : s.getLast? = some 92 → ∀ r', t ≠ 124 :: r')
+    (cur : Str) : splitPipes (escPipe s ++ t) cur = splitPipes t (s.reverse ++ cur) := by
   induction s generalizing cur with
   | nil => rfl
   | cons c s ih =>
-    have hs : 92 ∉ s := fun e => h (List.mem_cons_of_mem _ e)
-    have hc : c ≠ 92 := fun e => h (by simp [e])
+    have hs : s.getLast? = some 92 → ∀ r', t ≠ 124 :: r' := by
+      intro hl; apply h
+      cases s with
+      | nil => simp at hl
+      | cons d s' => simpa [List.getLast?_cons_cons] using hl
     by_cases h1 : c = 124
     · subst h1
       rw [escPipe_cons_pipe]
@@ -284,8 +303,24 @@ theorem splitPipes_escPipe_append (s t : Str) (h : 92 ∉ s) (cur : Str) :
       simp
     · rw [escPipe_cons_ne _ _ h1]
       simp only [List.cons_append]
-      rw [splitPipes_other _ _ _ hc h1, ih hs]
-      simp
+      by_cases h2 : c = 92
+      · subst h2
+        have hne : ∀ r', escPipe s ++ t ≠ 124 :: r' := by
+          cases s with
+          | nil => exact h (by simp)
+          | cons d s' => exact escPipe_append_head _ t (by simp)
+        rw [splitPipes_bs _ _ hne, ih hs]
+        simp
+      · rw [splitPipes_other _ _ _ h2 h1, ih hs]
+        simp
+
+theorem getLast?_ne_of_not_mem (p : Str) (x : Nat) (h : x ∉ p) : p.getLast? ≠ some x :=
+  fun hl => h (List.mem_of_getLast? hl)
+
+/-- scanning an escaped backslash-free text adds exactly that text to the current cell -/
+theorem splitPipes_escPipe_append (s t : Str) (h : 92 ∉ s) (cur : Str) :
+    splitPipes (escPipe s ++ t) cur = splitPipes t (s.reverse ++ cur) :=
+  splitPipes_escPipe_append_any s t (fun hl => absurd hl (getLast?_ne_of_not_mem s 92 h)) cur
 
 /-- the body of a row line: each padded cell, pipe-escaped, followed by `|` -/
 def rowBody (ps : List Str) : Str := ps.flatMap fun p => escPipe p ++ [124]
@@ -296,14 +331,19 @@ theorem rowBody_cons (p : Str) (ps : List Str) : rowBody (p :: ps) = escPipe p +
 theorem rowBody_append (a b : List Str) : rowBody (a ++ b) = rowBody a ++ rowBody b := by
   simp [rowBody]
 
-theorem splitPipes_rowBody (ps : List Str) (h : ∀ p ∈ ps, 92 ∉ p) :
+/-- cells of any bytes that do not END in a backslash (a padded cell ends in a space) -/
+theorem splitPipes_rowBody_end (ps : List Str) (h : ∀ p ∈ ps, p.getLast? ≠ some 92) :
     splitPipes (rowBody ps) [] = ps ++ [[]] := by
   induction ps with
   | nil => rfl
   | cons p ps ih =>
-    rw [rowBody_cons, splitPipes_escPipe_append _ _ (h p (by simp)), splitPipes_pipe,
-      ih (fun q hq => h q (List.mem_cons_of_mem _ hq))]
+    rw [rowBody_cons, splitPipes_escPipe_append_any _ _ (fun hl => absurd hl (h p (by simp))),
+      splitPipes_pipe, ih (fun q hq => h q (List.mem_cons_of_mem _ hq))]
     simp
+
+theorem splitPipes_rowBody (ps : List Str) (h : ∀ p ∈ ps, 92 ∉ p) :
+    splitPipes (rowBody ps) [] = ps ++ [[]] :=
+  splitPipes_rowBody_end ps (fun p hp => getLast?_ne_of_not_mem p 92 (h p hp))
 
 theorem dropLastEmpty_append_nil (ps : List Str) : dropLastEmpty (ps ++ [[]]) = ps := by
   induction ps with
@@ -338,13 +378,18 @@ theorem trim_rowLine (ps : List Str) : trim (124 :: rowBody ps) = 124 :: rowBody
     rw [this, List.getLast?_append] at hc
     simp at hc; subst hc; rfl
 
-/-- **core lemma**: a row line made of backslash-free padded cells reads back as those cells, trimmed -/
-theorem gfmSplitRow_rowLine (ps : List Str) (h : ∀ p ∈ ps, 92 ∉ p) :
+/-- **core lemma**: a row line made of padded cells of ANY bytes, none of which ends in a
+backslash, reads back as those cells, trimmed -/
+theorem gfmSplitRow_rowLine_end (ps : List Str) (h : ∀ p ∈ ps, p.getLast? ≠ some 92) :
     gfmSplitRow (124 :: rowBody ps) = ps.map trim := by
   unfold gfmSplitRow
   rw [trim_rowLine]
   simp only
-  rw [splitPipes_rowBody _ h, dropLastEmpty_append_nil]
+  rw [splitPipes_rowBody_end _ h, dropLastEmpty_append_nil]
+
+theorem gfmSplitRow_rowLine (ps : List Str) (h : ∀ p ∈ ps, 92 ∉ p) :
+    gfmSplitRow (124 :: rowBody ps) = ps.map trim :=
+  gfmSplitRow_rowLine_end ps (fun p hp => getLast?_ne_of_not_mem p 92 (h p hp))
 
 /-! ### rows of the writers -/
 
@@ -395,14 +440,23 @@ theorem padCell_noBs (w : Writer) (c : Str) (h : 92 ∉ c) : 92 ∉ padCell w c 
 
 theorem trim_padCell (w : Writer) (c : Str) : trim (padCell w c) = normCell w c := trim_pad _
 
-/-- one rendered row reads back as its cells, normalised -/
-theorem gfmSplitRow_renderRow (w : Writer) (cells : List Str) (hne : cells ≠ [])
-    (h : ∀ c ∈ cells, 92 ∉ c) : gfmSplitRow (renderRow w cells) = cells.map (normCell w) := by
-  rw [renderRow_eq w cells hne, gfmSplitRow_rowLine]
+theorem padCell_end (w : Writer) (c : Str) : (padCell w c).getLast? ≠ some 92 := by
+  unfold padCell
+  rw [List.getLast?_append]
+  simp
+
+/-- one rendered row reads back as its cells, normalised — cells of ANY bytes -/
+theorem gfmSplitRow_renderRow_any (w : Writer) (cells : List Str) (hne : cells ≠ []) :
+    gfmSplitRow (renderRow w cells) = cells.map (normCell w) := by
+  rw [renderRow_eq w cells hne, gfmSplitRow_rowLine_end]
   · simp [trim_padCell]
   · intro p hp
-    rcases List.mem_map.mp hp with ⟨c, hc, rfl⟩
-    exact padCell_noBs w c (h c hc)
+    rcases List.mem_map.mp hp with ⟨c, _, rfl⟩
+    exact padCell_end w c
+
+theorem gfmSplitRow_renderRow (w : Writer) (cells : List Str) (hne : cells ≠ [])
+    (_h : ∀ c ∈ cells, 92 ∉ c) : gfmSplitRow (renderRow w cells) = cells.map (normCell w) :=
+  gfmSplitRow_renderRow_any w cells hne
 
 theorem rowBody_noNl (ps : List Str) (h : ∀ p ∈ ps, 10 ∉ p) : 10 ∉ rowBody ps := by
   unfold rowBody
@@ -515,8 +569,8 @@ theorem padTrunc_exact (n : Nat) (cells : List Str) (h : cells.length = n) : pad
 theorem isBlank_rowLine (r : Str) : isBlank (124 :: r) = false := by
   simp [isBlank, isWs]
 
-theorem bodyRows_rows (w : Writer) (n : Nat) (hn : 1 ≤ n) (rows : List (List Str))
-    (hlen : ∀ r ∈ rows, r.length = n) (hbs : ∀ r ∈ rows, ∀ c ∈ r, 92 ∉ c) :
+theorem bodyRows_rows_any (w : Writer) (n : Nat) (hn : 1 ≤ n) (rows : List (List Str))
+    (hlen : ∀ r ∈ rows, r.length = n) :
     bodyRows n (rows.map (renderRow w) ++ [[]]) = rows.map (List.map (normCell w)) := by
   induction rows with
   | nil => simp [bodyRows, isBlank]
@@ -524,10 +578,15 @@ theorem bodyRows_rows (w : Writer) (n : Nat) (hn : 1 ≤ n) (rows : List (List S
     have hr : r ≠ [] := by
       intro e; have := hlen r (by simp); rw [e] at this; simp at this; omega
     simp only [List.map_cons, List.cons_append, bodyRows]
-    rw [ih (fun x hx => hlen x (List.mem_cons_of_mem _ hx)) (fun x hx => hbs x (List.mem_cons_of_mem _ hx))]
-    rw [gfmSplitRow_renderRow w r hr (hbs r (by simp)), renderRow_eq w r hr, isBlank_rowLine]
+    rw [ih (fun x hx => hlen x (List.mem_cons_of_mem _ hx))]
+    rw [gfmSplitRow_renderRow_any w r hr, renderRow_eq w r hr, isBlank_rowLine]
     rw [padTrunc_exact n _ (by simp [hlen r (by simp)])]
     simp
+
+theorem bodyRows_rows (w : Writer) (n : Nat) (hn : 1 ≤ n) (rows : List (List Str))
+    (hlen : ∀ r ∈ rows, r.length = n) (_hbs : ∀ r ∈ rows, ∀ c ∈ r, 92 ∉ c) :
+    bodyRows n (rows.map (renderRow w) ++ [[]]) = rows.map (List.map (normCell w)) :=
+  bodyRows_rows_any w n hn rows hlen
 
 theorem all_replicate_dash (n : Nat) : (List.replicate n [45, 45, 45]).all isDelimCell = true := by
   rw [List.all_eq_true]
@@ -535,11 +594,10 @@ theorem all_replicate_dash (n : Nat) : (List.replicate n [45, 45, 45]).all isDel
   rw [List.eq_of_mem_replicate hx]
   decide
 
-/-- a rectangular backslash-free table through any writer reads back as the same rows ×
+/-- a rectangular table of cells of ANY bytes through any writer reads back as the same rows ×
 columns of normalised cell texts -/
-theorem gfmTable_render (w : Writer) (n : Nat) (hn : 1 ≤ n) (hdr : List Str) (rows : List (List Str))
-    (hh : hdr.length = n) (hlen : ∀ r ∈ rows, r.length = n)
-    (hbh : ∀ c ∈ hdr, 92 ∉ c) (hbs : ∀ r ∈ rows, ∀ c ∈ r, 92 ∉ c) :
+theorem gfmTable_render_any (w : Writer) (n : Nat) (hn : 1 ≤ n) (hdr : List Str) (rows : List (List Str))
+    (hh : hdr.length = n) (hlen : ∀ r ∈ rows, r.length = n) :
     gfmTable (render w (hdr :: rows)) = some ((hdr :: rows).map (List.map (normCell w))) := by
   have hhne : hdr ≠ [] := by intro e; rw [e] at hh; simp at hh; omega
   have hbody : (rows.flatMap fun r => renderRow w r ++ [10])
@@ -548,7 +606,7 @@ theorem gfmTable_render (w : Writer) (n : Nat) (hn : 1 ≤ n) (hdr : List Str) (
     | nil => rfl
     | cons r rs ih =>
       simp only [List.flatMap_cons, List.map_cons]
-      rw [ih (fun x hx => hlen x (List.mem_cons_of_mem _ hx)) (fun x hx => hbs x (List.mem_cons_of_mem _ hx))]
+      rw [ih (fun x hx => hlen x (List.mem_cons_of_mem _ hx))]
   have hlines : splitLines (render w (hdr :: rows))
       = renderRow w hdr :: renderDelim w n :: (rows.map (renderRow w) ++ [[]]) := by
     have e : render w (hdr :: rows) = renderRow w hdr ++ 10 :: (renderDelim w n ++ 10 ::
@@ -564,10 +622,18 @@ theorem gfmTable_render (w : Writer) (n : Nat) (hn : 1 ≤ n) (hdr : List Str) (
   unfold gfmTable
   rw [hlines]
   simp only
-  rw [gfmSplitRow_renderRow w hdr hhne hbh, gfmSplitRow_renderDelim w n hn]
+  rw [gfmSplitRow_renderRow_any w hdr hhne, gfmSplitRow_renderDelim w n hn]
   simp only [List.length_map, List.length_replicate, hh, all_replicate_dash]
-  rw [bodyRows_rows w n hn rows hlen hbs]
+  rw [bodyRows_rows_any w n hn rows hlen]
   simp [hn]
+
+/-- a rectangular backslash-free table through any writer reads back as the same rows ×
+columns of normalised cell texts -/
+theorem gfmTable_render (w : Writer) (n : Nat) (hn : 1 ≤ n) (hdr : List Str) (rows : List (List Str))
+    (hh : hdr.length = n) (hlen : ∀ r ∈ rows, r.length = n)
+    (_hbh : ∀ c ∈ hdr, 92 ∉ c) (_hbs : ∀ r ∈ rows, ∀ c ∈ r, 92 ∉ c) :
+    gfmTable (render w (hdr :: rows)) = some ((hdr :: rows).map (List.map (normCell w))) :=
+  gfmTable_render_any w n hn hdr rows hh hlen
 
 /-! ### the same, for lines given by their padded cells (used for docx/odt spans) -/
 
@@ -577,23 +643,23 @@ theorem rowLine_noNl (ps : List Str) (h : ∀ p ∈ ps, 10 ∉ p) : 10 ∉ 124 :
   · simp at h1
   · exact rowBody_noNl _ h h1
 
-theorem bodyRows_psLines (n : Nat) (bps : List (List Str)) (hlen : ∀ ps ∈ bps, ps.length = n)
-    (h92 : ∀ ps ∈ bps, ∀ p ∈ ps, 92 ∉ p) :
+theorem bodyRows_psLines_end (n : Nat) (bps : List (List Str)) (hlen : ∀ ps ∈ bps, ps.length = n)
+    (h92 : ∀ ps ∈ bps, ∀ p ∈ ps, p.getLast? ≠ some 92) :
     bodyRows n (bps.map (fun ps => 124 :: rowBody ps) ++ [[]]) = bps.map (List.map trim) := by
   induction bps with
   | nil => simp [bodyRows, isBlank]
   | cons r rs ih =>
     simp only [List.map_cons, List.cons_append, bodyRows]
     rw [ih (fun x hx => hlen x (List.mem_cons_of_mem _ hx)) (fun x hx => h92 x (List.mem_cons_of_mem _ hx))]
-    rw [gfmSplitRow_rowLine r (h92 r (by simp)), isBlank_rowLine]
+    rw [gfmSplitRow_rowLine_end r (h92 r (by simp)), isBlank_rowLine]
     rw [padTrunc_exact n _ (by simp [hlen r (by simp)])]
     simp
 
-theorem gfmTable_psLines (n : Nat) (hn : 1 ≤ n) (hp : List Str) (dp : Str) (bps : List (List Str))
+theorem gfmTable_psLines_end (n : Nat) (hn : 1 ≤ n) (hp : List Str) (dp : Str) (bps : List (List Str))
     (hh : hp.length = n) (hlen : ∀ ps ∈ bps, ps.length = n)
-    (hdp : trim dp = [45, 45, 45]) (hdp92 : 92 ∉ dp) (hdp10 : 10 ∉ dp)
-    (h92h : ∀ p ∈ hp, 92 ∉ p) (h10h : ∀ p ∈ hp, 10 ∉ p)
-    (h92 : ∀ ps ∈ bps, ∀ p ∈ ps, 92 ∉ p) (h10 : ∀ ps ∈ bps, ∀ p ∈ ps, 10 ∉ p) :
+    (hdp : trim dp = [45, 45, 45]) (hdp92 : dp.getLast? ≠ some 92) (hdp10 : 10 ∉ dp)
+    (h92h : ∀ p ∈ hp, p.getLast? ≠ some 92) (h10h : ∀ p ∈ hp, 10 ∉ p)
+    (h92 : ∀ ps ∈ bps, ∀ p ∈ ps, p.getLast? ≠ some 92) (h10 : ∀ ps ∈ bps, ∀ p ∈ ps, 10 ∉ p) :
     gfmTable ((124 :: rowBody hp) ++ 10 :: ((124 :: rowBody (List.replicate n dp)) ++ 10 ::
         ((bps.map fun ps => 124 :: rowBody ps).flatMap fun l => l ++ [10])))
       = some ((hp :: bps).map (List.map trim)) := by
@@ -610,12 +676,29 @@ theorem gfmTable_psLines (n : Nat) (hn : 1 ≤ n) (hp : List Str) (dp : Str) (bp
   unfold gfmTable
   rw [hlines]
   simp only
-  rw [gfmSplitRow_rowLine hp h92h, gfmSplitRow_rowLine (List.replicate n dp) (by
+  rw [gfmSplitRow_rowLine_end hp h92h, gfmSplitRow_rowLine_end (List.replicate n dp) (by
     intro p hp'; rw [List.eq_of_mem_replicate hp']; exact hdp92)]
   rw [List.map_replicate, hdp]
   simp only [List.length_map, List.length_replicate, hh, all_replicate_dash]
-  rw [bodyRows_psLines n bps hlen h92]
+  rw [bodyRows_psLines_end n bps hlen h92]
   simp [hn]
+
+theorem bodyRows_psLines (n : Nat) (bps : List (List Str)) (hlen : ∀ ps ∈ bps, ps.length = n)
+    (h92 : ∀ ps ∈ bps, ∀ p ∈ ps, 92 ∉ p) :
+    bodyRows n (bps.map (fun ps => 124 :: rowBody ps) ++ [[]]) = bps.map (List.map trim) :=
+  bodyRows_psLines_end n bps hlen (fun ps hps p hp => getLast?_ne_of_not_mem p 92 (h92 ps hps p hp))
+
+theorem gfmTable_psLines (n : Nat) (hn : 1 ≤ n) (hp : List Str) (dp : Str) (bps : List (List Str))
+    (hh : hp.length = n) (hlen : ∀ ps ∈ bps, ps.length = n)
+    (hdp : trim dp = [45, 45, 45]) (hdp92 : 92 ∉ dp) (hdp10 : 10 ∉ dp)
+    (h92h : ∀ p ∈ hp, 92 ∉ p) (h10h : ∀ p ∈ hp, 10 ∉ p)
+    (h92 : ∀ ps ∈ bps, ∀ p ∈ ps, 92 ∉ p) (h10 : ∀ ps ∈ bps, ∀ p ∈ ps, 10 ∉ p) :
+    gfmTable ((124 :: rowBody hp) ++ 10 :: ((124 :: rowBody (List.replicate n dp)) ++ 10 ::
+        ((bps.map fun ps => 124 :: rowBody ps).flatMap fun l => l ++ [10])))
+      = some ((hp :: bps).map (List.map trim)) :=
+  gfmTable_psLines_end n hn hp dp bps hh hlen hdp (getLast?_ne_of_not_mem dp 92 hdp92) hdp10
+    (fun p hp' => getLast?_ne_of_not_mem p 92 (h92h p hp')) h10h
+    (fun ps hps p hp' => getLast?_ne_of_not_mem p 92 (h92 ps hps p hp')) h10
 
 /-! ### docx / odt rows with merged cells -/
 
@@ -701,6 +784,20 @@ theorem spanPs_no (w : Writer) (n : Nat) (cells : List SCell) (x : Nat) (hx : x 
         · exact hx h4
       · rw [List.eq_of_mem_replicate h3]; simp; exact hx
   · rw [List.eq_of_mem_replicate h1]; simp; exact hx
+
+/-- every padded cell of a docx/odt row ends in a space, whatever the cell texts -/
+theorem spanPs_end (w : Writer) (n : Nat) (cells : List SCell) :
+    ∀ p ∈ spanPs w n cells, p.getLast? ≠ some 92 := by
+  intro p hp
+  unfold spanPs at hp
+  rcases List.mem_append.mp hp with h1 | h1
+  · rcases List.mem_flatMap.mp h1 with ⟨c, _, h2⟩
+    split at h2
+    · rw [List.eq_of_mem_replicate h2]; decide
+    · rcases List.mem_cons.mp h2 with h3 | h3
+      · rw [h3]; exact padCell_end w c.text
+      · rw [List.eq_of_mem_replicate h3]; decide
+  · rw [List.eq_of_mem_replicate h1]; decide
 
 theorem le_foldl_max (t : List (List SCell)) (m : Nat) :
     m ≤ t.foldl (fun m r => if rowCols r > m then rowCols r else m) m ∧
